@@ -299,7 +299,7 @@ func runC06(c *Ctx) {
 				}
 				if mm, ok := mu.Map.(*ssa.MakeMap); ok && c.E(mu.Key).V == pid {
 					_ = mm
-					if _, ok := Match(Call("pcache.apiToCacheInfo"), c.E(mu.Value)); ok {
+					if _, ok := Match(c.RoleCall("pcache.index"), c.E(mu.Value)); ok {
 						entered = true
 						// every publication is after this update
 						var pubs []ssa.Instruction
@@ -451,7 +451,7 @@ func pcacheLoadUnderToken(c *Ctx, rule string) {
 				if fn == nil {
 					return true
 				}
-				isLoad := fn.Name() == "loadReadOnly" || (fn.Name() == "Load" && fn.Pkg() != nil && fn.Pkg().Path() == "sync/atomic")
+				isLoad := (c.Role("pcache.load") != nil && c.Role("pcache.load").Object() == types.Object(fn)) || (fn.Name() == "Load" && fn.Pkg() != nil && fn.Pkg().Path() == "sync/atomic")
 				if !isLoad {
 					return true
 				}
